@@ -174,4 +174,362 @@ theorem cell_op (n t : Nat) (c : Enc) (op : Op) (ri : RunInv c) (hl : op.LegalAt
     · rw [if_neg hb] at hn herr ⊢
       exact cell_prim n t c (.encode v (v + 1) (ft - 1 + 1)) ri.inv (uint_lo_legal l1 l3 hb) rfl hn herr h
 
+/-! ### The patch itself -/
+
+theorem pow_split8 (n : Nat) (hn : n ≤ 8) : 2 ^ n * 2 ^ (8 - n) = 256 := by
+  rw [← Nat.pow_add]; have : n + (8 - n) = 8 := by omega
+  rw [this]
+
+theorem patchByte_eq (b v n : Nat) (hn : n ≤ 8) (hv : v < 2 ^ n) :
+    patchByte b v n = b % 2 ^ (8 - n) + v * 2 ^ (8 - n) ∧ b % 2 ^ (8 - n) + v * 2 ^ (8 - n) < 256 := by
+  have hlt : b % 2 ^ (8 - n) < 2 ^ (8 - n) := Nat.mod_lt _ (Nat.pow_pos (by decide))
+  refine ⟨by unfold patchByte; exact or_shift _ _ _ hlt, ?_⟩
+  have h8 := pow_split8 n hn
+  have : (v + 1) * 2 ^ (8 - n) ≤ 2 ^ n * 2 ^ (8 - n) := Nat.mul_le_mul_right _ hv
+  rw [Nat.add_mul] at this
+  omega
+
+/-- Replacing the top `n` bits (`t`, forced by the bounds) of the leading digit `b` by `v`. -/
+theorem top_bits_core (n t v b P low : Nat) (hn : n ≤ 8) (hP : 0 < P) (hlow : low < P)
+    (h1 : t * (2 ^ (8 - n) * P) ≤ b * P + low) (h2 : b * P + low < (t + 1) * (2 ^ (8 - n) * P)) :
+    b / 2 ^ (8 - n) = t ∧
+    (b % 2 ^ (8 - n) + v * 2 ^ (8 - n)) * P + low + t * (2 ^ (8 - n) * P) =
+      b * P + low + v * (2 ^ (8 - n) * P) := by
+  generalize hQ : 2 ^ (8 - n) = Q at *
+  have hQ0 : 0 < Q := by rw [← hQ]; exact Nat.pow_pos (by decide)
+  have a1 : t * Q < b + 1 := by
+    apply Nat.lt_of_mul_lt_mul_right (a := P)
+    rw [Nat.mul_assoc, Nat.add_mul]; omega
+  have a2 : b < (t + 1) * Q := by
+    apply Nat.lt_of_mul_lt_mul_right (a := P)
+    rw [Nat.mul_assoc]; omega
+  have hd : b / Q = t := by
+    exact Nat.div_eq_of_lt_le (by omega) a2
+  refine ⟨hd, ?_⟩
+  have hb : b = t * Q + b % Q := by
+    have := Nat.div_add_mod b Q
+    rw [hd, Nat.mul_comm] at this; exact this.symm
+  generalize b % Q = m at *
+  subst hb
+  simp only [Nat.add_mul, Nat.mul_assoc]
+  omega
+
+theorem patch_arith (W X P Q t v b low D D' val rng n : Nat) (hW : 0 < W) (hP : 0 < P) (hX : Q * P = X)
+    (hQ : 2 ^ (8 - n) = Q) (hn : n ≤ 8) (hv : v < 2 ^ n) (hlow : low < P) (hD : D = b * P + low)
+    (hD' : D' = (b % Q + v * Q) * P + low) (h3 : t * (W * X) ≤ D * W + val)
+    (h4 : D * W + val + rng ≤ (t + 1) * (W * X)) (h5' : t * (W * X) + val ≤ D * W + val) (hrp : 0 < rng) :
+    v * (W * X) ≤ D' * W + val ∧ D' * W + val + rng ≤ (v + 1) * (W * X) ∧
+    v * (W * X) + val ≤ D' * W + val ∧ D' * W + val + t * (W * X) = D * W + val + v * (W * X) ∧
+    b / Q = t ∧ (b % Q + v * Q = 255 → low + 1 = P → val + rng ≤ W) := by
+  have h8 := pow_split8 n hn
+  rw [hQ] at h8
+  have hvX : (v + 1) * X ≤ 256 * P := by
+    have : (v + 1) * X ≤ 2 ^ n * X := Nat.mul_le_mul_right _ hv
+    rw [← hX, ← Nat.mul_assoc (2 ^ n), h8] at this; rw [← hX]; exact this
+  have d1 : t * X ≤ D := by
+    have : (t * X) * W ≤ D * W := by
+      rw [Nat.mul_assoc, Nat.mul_comm X W]; omega
+    exact Nat.le_of_mul_le_mul_right this hW
+  have d2 : D < (t + 1) * X := by
+    have : D * W < ((t + 1) * X) * W := by
+      rw [Nat.mul_assoc, Nat.mul_comm X W]; omega
+    exact Nat.lt_of_mul_lt_mul_right this
+  obtain ⟨k1, k2⟩ := top_bits_core n t v b P low hn hP hlow (by rw [hQ, hX, ← hD]; exact d1)
+    (by rw [hQ, hX, ← hD]; exact d2)
+  rw [hQ] at k1 k2
+  rw [hX, ← hD, ← hD'] at k2
+  have e1 : D' * W + (t * X) * W = D * W + (v * X) * W := by
+    rw [← Nat.add_mul, ← Nat.add_mul, k2]
+  have eT : ∀ k, k * (W * X) = (k * X) * W := fun k => by rw [Nat.mul_assoc, Nat.mul_comm X W]
+  have eT1 : ∀ k, (k + 1) * (W * X) = (k * X) * W + X * W := fun k => by
+    rw [Nat.add_mul, Nat.one_mul, eT, Nat.mul_comm W X]
+  rw [eT] at h3 h5'
+  rw [eT1] at h4
+  rw [eT, eT1, eT]
+  have last : b % Q + v * Q = 255 → low + 1 = P → val + rng ≤ W := by
+    intro hb hl
+    have hd' : D' + 1 = 256 * P := by rw [hD', hb]; omega
+    have m1 : (v * X + X) * W ≤ (256 * P) * W :=
+      Nat.mul_le_mul_right _ (by rw [Nat.add_mul, Nat.one_mul] at hvX; exact hvX)
+    have m2 : (D' + 1) * W = (256 * P) * W := by rw [hd']
+    rw [Nat.add_mul, Nat.one_mul] at m2
+    rw [Nat.add_mul] at m1
+    generalize D' * W = dw' at *
+    generalize D * W = dw at *
+    generalize (t * X) * W = tw at *
+    generalize (v * X) * W = vw at *
+    generalize X * W = xw at *
+    generalize (256 * P) * W = pw at *
+    omega
+  refine ⟨?_, ?_, ?_, ?_, k1, last⟩ <;>
+    (generalize D' * W = dw' at *
+     generalize D * W = dw at *
+     generalize (t * X) * W = tw at *
+     generalize (v * X) * W = vw at *
+     generalize X * W = xw at *
+     omega)
+
+/-- The effect of replacing the top `n` bits of the leading output digit on the interval. -/
+theorem patch_digits (n t v : Nat) (c c' : Enc) (b low : Nat) (hv : v < 2 ^ n) (hM : 1 ≤ encM c)
+    (eM : encM c' = encM c) (ev : c'.val = c.val) (er : c'.rng = c.rng)
+    (hD : digitsVal c = b * 256 ^ (encM c - 1) + low)
+    (hD' : digitsVal c' = (b % 2 ^ (8 - n) + v * 2 ^ (8 - n)) * 256 ^ (encM c - 1) + low)
+    (hlow : low < 256 ^ (encM c - 1)) (hrp : 0 < c.rng) (h : Cell n t c) :
+    Cell n v c' ∧ encLow c' + t * cellSz c n = encLow c + v * cellSz c n ∧ b / 2 ^ (8 - n) = t ∧
+    (b % 2 ^ (8 - n) + v * 2 ^ (8 - n) = 255 → low + 1 = 256 ^ (encM c - 1) → c.val + c.rng ≤ 2147483648) := by
+  obtain ⟨h1, h2, h3, h4, h5⟩ := h
+  have h5' := h5 hM
+  have hZ := cellSz_eq c n h1 hM
+  have hZ' : cellSz c' n = cellSz c n := by unfold cellSz; rw [eM]
+  have eL' : encLow c' = digitsVal c' * 2147483648 + c.val := by unfold encLow; rw [ev]
+  have eL : encLow c = digitsVal c * 2147483648 + c.val := rfl
+  rw [hZ, eL] at h3 h4 h5'
+  obtain ⟨a1, a2, a3, a4, a5, a6⟩ := patch_arith 2147483648 (2 ^ (8 - n) * 256 ^ (encM c - 1)) (256 ^ (encM c - 1))
+    (2 ^ (8 - n)) t v b low (digitsVal c) (digitsVal c') c.val c.rng n (by decide) (Nat.pow_pos (by decide)) rfl rfl
+    h1 hv hlow hD hD' h3 h4 h5' hrp
+  exact ⟨⟨h1, hv, by rw [hZ', hZ, eL']; exact a1, by rw [hZ', hZ, eL', er]; exact a2,
+    fun _ => by rw [hZ', hZ, eL', ev]; exact a3⟩, by rw [hZ, eL', eL]; exact a4, a5, a6⟩
+
+theorem pendVal_lt (c : Enc) (h1 : c.rem ≤ 255) : pendVal c < 256 ^ pendCount c := by
+  unfold pendVal pendCount
+  have hp : 0 < 256 ^ c.ext := Nat.pow_pos (by decide)
+  split
+  · rename_i hr
+    have : c.rem.toNat ≤ 255 := by omega
+    have h2 : c.rem.toNat * 256 ^ c.ext ≤ 255 * 256 ^ c.ext := Nat.mul_le_mul_right _ this
+    rw [Nat.add_comm 1 c.ext, Nat.pow_succ]
+    omega
+  · simp only [Nat.zero_add]; omega
+
+/-- What the proofs need about one `ec_enc_patch_initial_bits` on a state whose interval lies in
+    cell `t` of the first `n` bits. -/
+theorem patch_spec (c : Enc) (n t v : Nat) (ri : RunInv c) (hc : Cell n t c) (hv : v < 2 ^ n) :
+    (encPatchInitialBits c v n).error = c.error ∧ RunInv (encPatchInitialBits c v n) ∧
+    Cell n v (encPatchInitialBits c v n) ∧ encM (encPatchInitialBits c v n) = encM c ∧
+    (encPatchInitialBits c v n).rng = c.rng ∧ (encPatchInitialBits c v n).nbitsTotal = c.nbitsTotal ∧
+    encLow (encPatchInitialBits c v n) + t * cellSz c n = encLow c + v * cellSz c n ∧
+    (encPatchInitialBits c v n).storage = c.storage ∧ rawN (encPatchInitialBits c v n) = rawN c ∧
+    rawQ (encPatchInitialBits c v n) (encPatchInitialBits c v n).endWindow = rawQ c c.endWindow := by
+  obtain ⟨inv, raw, bytes⟩ := ri
+  obtain ⟨⟨wf, rp, rh, sl, cs, eb⟩, rl⟩ := inv
+  have hn8 := hc.n_le
+  by_cases ho : c.offs > 0
+  · -- (a) the first byte is in the buffer
+    have e : encPatchInitialBits c v n =
+        { c with buf := c.buf.set 0 (patchByte (c.buf.getD 0 0) v n % 256) } := by
+      unfold encPatchInitialBits; simp only [if_pos ho]
+    rw [e]
+    obtain ⟨pb1, pb2⟩ := patchByte_eq (c.buf.getD 0 0) v n hn8 hv
+    rw [pb1, Nat.mod_eq_of_lt pb2]
+    have hlen : 0 < c.buf.length := by have := wf.offs_le; have := wf.storage_le; omega
+    obtain ⟨b0, bt, hbuf⟩ : ∃ b0 bt, c.buf = b0 :: bt := by
+      cases hcb : c.buf with
+      | nil => rw [hcb] at hlen; simp at hlen
+      | cons x xs => exact ⟨x, xs, rfl⟩
+    have hb0 : c.buf.getD 0 0 = b0 := by rw [hbuf]; rfl
+    rw [hb0]
+    rw [hb0] at pb2
+    have hb0lt : b0 < 256 := bytes b0 (by rw [hbuf]; simp)
+    have hoffs : c.offs = (c.offs - 1) + 1 := by omega
+    have hbtlen : c.offs - 1 ≤ bt.length := by
+      have := wf.offs_le; have := wf.storage_le; rw [hbuf] at this; simp at this; omega
+    have htk : c.buf.take c.offs = b0 :: bt.take (c.offs - 1) := by
+      rw [hbuf, hoffs, List.take_succ_cons]; simp
+    have htk' : ∀ x, (c.buf.set 0 x).take c.offs = x :: bt.take (c.offs - 1) := by
+      intro x; rw [hbuf, List.set_cons_zero, hoffs, List.take_succ_cons]; simp
+    have hR : bytesVal (bt.take (c.offs - 1)) < 256 ^ (c.offs - 1) := by
+      have := bytesVal_lt (bt.take (c.offs - 1)) (fun b hb => bytes b (by
+        rw [hbuf]; exact List.mem_cons_of_mem _ (List.mem_of_mem_take hb)))
+      rw [List.length_take, Nat.min_eq_left hbtlen] at this; exact this
+    have hpv := pendVal_lt c wf.rem_hi
+    have hM1 : encM c - 1 = (c.offs - 1) + pendCount c := by unfold encM; omega
+    have hD : ∀ x, bytesVal (x :: bt.take (c.offs - 1)) * 256 ^ pendCount c + pendVal c =
+        x * 256 ^ (encM c - 1) + (bytesVal (bt.take (c.offs - 1)) * 256 ^ pendCount c + pendVal c) := by
+      intro x
+      rw [bytesVal_cons, List.length_take, Nat.min_eq_left hbtlen, hM1, Nat.pow_add, Nat.add_mul, Nat.mul_assoc]
+      omega
+    have hlow : bytesVal (bt.take (c.offs - 1)) * 256 ^ pendCount c + pendVal c < 256 ^ (encM c - 1) := by
+      rw [hM1, Nat.pow_add]
+      have : (bytesVal (bt.take (c.offs - 1)) + 1) * 256 ^ pendCount c ≤ 256 ^ (c.offs - 1) * 256 ^ pendCount c :=
+        Nat.mul_le_mul_right _ hR
+      rw [Nat.add_mul] at this
+      omega
+    generalize hc' : ({ c with buf := c.buf.set 0 (b0 % 2 ^ (8 - n) + v * 2 ^ (8 - n)) } : Enc) = c'
+    have f_buf : c'.buf = c.buf.set 0 (b0 % 2 ^ (8 - n) + v * 2 ^ (8 - n)) := by rw [← hc']
+    have eM : encM c' = encM c := by rw [← hc']; rfl
+    have hMge : 1 ≤ encM c := by unfold encM; omega
+    have dD : digitsVal c = b0 * 256 ^ (encM c - 1) +
+        (bytesVal (bt.take (c.offs - 1)) * 256 ^ pendCount c + pendVal c) := by
+      unfold digitsVal; rw [htk]; exact hD b0
+    have dD' : digitsVal c' = (b0 % 2 ^ (8 - n) + v * 2 ^ (8 - n)) * 256 ^ (encM c - 1) +
+        (bytesVal (bt.take (c.offs - 1)) * 256 ^ pendCount c + pendVal c) := by
+      rw [← hc']
+      show bytesVal ((c.buf.set 0 (b0 % 2 ^ (8 - n) + v * 2 ^ (8 - n))).take c.offs) * 256 ^ pendCount c +
+        pendVal c = _
+      rw [htk']; exact hD _
+    obtain ⟨q1, q2, _, _⟩ := patch_digits n t v c c' b0 _ hv hMge eM (by rw [← hc']) (by rw [← hc'])
+      dD dD' hlow rp hc
+    have hbo : BytesOk c'.buf := by rw [f_buf]; exact bytesOk_set bytes _ _ pb2
+    refine ⟨by rw [← hc'], ⟨⟨⟨⟨by rw [← hc']; exact wf.offs_le, ?_, by rw [← hc']; exact wf.rem_lo,
+      by rw [← hc']; exact wf.rem_hi⟩, by rw [← hc']; exact rp, by rw [← hc']; exact rh, by rw [← hc']; exact sl,
+      by rw [← hc']; exact cs, by rw [← hc']; exact eb⟩, by rw [← hc']; exact rl⟩,
+      ⟨by rw [← hc']; exact raw.win_lt, by rw [← hc']; exact raw.nend_le⟩, hbo⟩, q1, eM, by rw [← hc'],
+      by rw [← hc'], q2, by rw [← hc'], by rw [← hc']; rfl, ?_⟩
+    · rw [f_buf, List.length_set]; rw [← hc']; exact wf.storage_le
+    · unfold rawQ
+      have e1 : c'.storage = c.storage := by rw [← hc']
+      have e2 : c'.endOffs = c.endOffs := by rw [← hc']
+      have e3 : c'.endWindow = c.endWindow := by rw [← hc']
+      rw [e1, e2, e3]
+      congr 1
+      apply tailVal_congr
+      intro j hj
+      unfold endByte
+      have := wf.offs_le
+      rw [if_pos (by omega), if_pos (by omega), f_buf, getD_set, if_neg (by omega)]
+  · have ho0 : c.offs = 0 := by omega
+    have htk0 : c.buf.take c.offs = [] := by rw [ho0]; rfl
+    by_cases hr : c.rem ≥ 0
+    · -- (b) the first byte is the carry-pending `rem`
+      have e : encPatchInitialBits c v n = { c with rem := ((patchByte c.rem.toNat v n : Nat) : Int) } := by
+        unfold encPatchInitialBits; simp only [if_neg ho, if_pos hr]
+      rw [e]
+      obtain ⟨pb1, pb2⟩ := patchByte_eq c.rem.toNat v n hn8 hv
+      rw [pb1]
+      generalize hc' : ({ c with rem := ((c.rem.toNat % 2 ^ (8 - n) + v * 2 ^ (8 - n) : Nat) : Int) } : Enc) = c'
+      have f_rem : c'.rem = ((c.rem.toNat % 2 ^ (8 - n) + v * 2 ^ (8 - n) : Nat) : Int) := by rw [← hc']
+      have hr' : c'.rem ≥ 0 := by rw [f_rem]; omega
+      have pc : pendCount c = 1 + c.ext := by unfold pendCount; rw [if_pos hr]
+      have pc' : pendCount c' = 1 + c.ext := by
+        unfold pendCount; rw [if_pos hr']; rw [← hc']
+      have eM : encM c' = encM c := by unfold encM; rw [pc, pc']; rw [← hc']
+      have hM1 : encM c - 1 = c.ext := by unfold encM; rw [pc, ho0]; omega
+      have hMge : 1 ≤ encM c := by unfold encM; rw [pc]; omega
+      have hpp : 0 < 256 ^ c.ext := Nat.pow_pos (by decide)
+      have dD : digitsVal c = c.rem.toNat * 256 ^ (encM c - 1) + (256 ^ c.ext - 1) := by
+        unfold digitsVal pendVal; rw [htk0, if_pos hr, hM1]; simp
+      have dD' : digitsVal c' = (c.rem.toNat % 2 ^ (8 - n) + v * 2 ^ (8 - n)) * 256 ^ (encM c - 1) +
+          (256 ^ c.ext - 1) := by
+        unfold digitsVal pendVal
+        rw [if_pos hr', f_rem, hM1, Int.toNat_natCast]
+        have e1 : c'.offs = c.offs := by rw [← hc']
+        have e2 : c'.ext = c.ext := by rw [← hc']
+        have e3 : c'.buf = c.buf := by rw [← hc']
+        rw [e1, e2, e3, htk0, bytesVal_nil, Nat.zero_mul, Nat.zero_add]
+      obtain ⟨q1, q2, _, q4⟩ := patch_digits n t v c c' c.rem.toNat _ hv hMge eM (by rw [← hc']) (by rw [← hc'])
+        dD dD' (by rw [hM1]; omega) rp hc
+      refine ⟨by rw [← hc'], ⟨⟨⟨⟨by rw [← hc']; exact wf.offs_le, by rw [← hc']; exact wf.storage_le,
+        by omega, by rw [f_rem]; omega⟩, by rw [← hc']; exact rp, by rw [← hc']; exact rh,
+        by rw [← hc']; exact sl, ?_, by rw [← hc']; exact eb⟩, by rw [← hc']; exact rl⟩,
+        ⟨by rw [← hc']; exact raw.win_lt, by rw [← hc']; exact raw.nend_le⟩, by rw [← hc']; exact bytes⟩,
+        q1, eM, by rw [← hc'], by rw [← hc'], q2, by rw [← hc'], by rw [← hc']; rfl, by rw [← hc']; rfl⟩
+      intro hx
+      have e1 : c'.val = c.val := by rw [← hc']
+      have e2 : c'.rng = c.rng := by rw [← hc']
+      rw [e1, e2]
+      rcases hx with hx | hx
+      · omega
+      · exact q4 (by rw [f_rem] at hx; omega) (by rw [hM1]; omega)
+    · by_cases hx : c.ext > 0
+      · -- (c) the first byte is a buffered 0xFF
+        have e : encPatchInitialBits c v n =
+            { c with rem := ((patchByte 255 v n : Nat) : Int), ext := c.ext - 1 } := by
+          unfold encPatchInitialBits; simp only [if_neg ho, if_neg hr, if_pos hx]
+        rw [e]
+        obtain ⟨pb1, pb2⟩ := patchByte_eq 255 v n hn8 hv
+        rw [pb1]
+        generalize hc' : ({ c with rem := ((255 % 2 ^ (8 - n) + v * 2 ^ (8 - n) : Nat) : Int), ext := c.ext - 1 } : Enc) = c'
+        have f_rem : c'.rem = ((255 % 2 ^ (8 - n) + v * 2 ^ (8 - n) : Nat) : Int) := by rw [← hc']
+        have f_ext : c'.ext = c.ext - 1 := by rw [← hc']
+        have hr' : c'.rem ≥ 0 := by rw [f_rem]; omega
+        have pc : pendCount c = c.ext := by unfold pendCount; rw [if_neg hr]; omega
+        have pc' : pendCount c' = c.ext := by unfold pendCount; rw [if_pos hr', f_ext]; omega
+        have eM : encM c' = encM c := by unfold encM; rw [pc, pc']; rw [← hc']
+        have hM1 : encM c - 1 = c.ext - 1 := by unfold encM; rw [pc, ho0]; omega
+        have hMge : 1 ≤ encM c := by unfold encM; rw [pc]; omega
+        have hpp : 0 < 256 ^ (c.ext - 1) := Nat.pow_pos (by decide)
+        have hsplit : 256 ^ c.ext = 256 * 256 ^ (c.ext - 1) := by
+          have : c.ext = (c.ext - 1) + 1 := by omega
+          conv => lhs; rw [this, Nat.pow_succ]
+          omega
+        have dD : digitsVal c = 255 * 256 ^ (encM c - 1) + (256 ^ (c.ext - 1) - 1) := by
+          unfold digitsVal pendVal; rw [htk0, if_neg hr, hM1, hsplit]; simp; omega
+        have dD' : digitsVal c' = (255 % 2 ^ (8 - n) + v * 2 ^ (8 - n)) * 256 ^ (encM c - 1) +
+            (256 ^ (c.ext - 1) - 1) := by
+          unfold digitsVal pendVal
+          rw [if_pos hr', f_rem, f_ext, hM1, Int.toNat_natCast]
+          have e1 : c'.offs = c.offs := by rw [← hc']
+          have e3 : c'.buf = c.buf := by rw [← hc']
+          rw [e1, e3, htk0, bytesVal_nil, Nat.zero_mul, Nat.zero_add]
+        obtain ⟨q1, q2, _, q4⟩ := patch_digits n t v c c' 255 _ hv hMge eM (by rw [← hc']) (by rw [← hc'])
+          dD dD' (by rw [hM1]; omega) rp hc
+        have hcs := cs (Or.inl (by omega))
+        refine ⟨by rw [← hc'], ⟨⟨⟨⟨by rw [← hc']; exact wf.offs_le, by rw [← hc']; exact wf.storage_le,
+          by omega, by rw [f_rem]; omega⟩, by rw [← hc']; exact rp, by rw [← hc']; exact rh,
+          by rw [← hc']; exact sl, ?_, by rw [f_ext]; rw [← hc']; simp only; omega⟩, by rw [← hc']; exact rl⟩,
+          ⟨by rw [← hc']; exact raw.win_lt, by rw [← hc']; exact raw.nend_le⟩, by rw [← hc']; exact bytes⟩,
+          q1, eM, by rw [← hc'], by rw [← hc'], q2, by rw [← hc'], by rw [← hc']; rfl, by rw [← hc']; rfl⟩
+        intro _
+        have e1 : c'.val = c.val := by rw [← hc']
+        have e2 : c'.rng = c.rng := by rw [← hc']
+        rw [e1, e2]; exact hcs
+      · -- (d) nothing has been output yet: the bits are still in `val`
+        have hx0 : c.ext = 0 := by omega
+        have pc : pendCount c = 0 := by unfold pendCount; rw [if_neg hr, hx0]
+        have hM0 : encM c = 0 := by unfold encM; rw [pc, ho0]
+        have hD0 : digitsVal c = 0 := by
+          unfold digitsVal pendVal; rw [htk0, if_neg hr, hx0]; simp
+        have hZ : cellSz c n = 2 ^ (31 - n) := by unfold cellSz; rw [hM0]; simp
+        obtain ⟨_, h2, h3, h4, _⟩ := hc
+        rw [hZ] at h3 h4 ⊢
+        have hL : encLow c = c.val := by unfold encLow; rw [hD0]; simp
+        rw [hL] at h3 h4 ⊢
+        have hpow : 2 ^ n * 2 ^ (31 - n) = 2147483648 := by
+          rw [← Nat.pow_add]; have : n + (31 - n) = 31 := by omega
+          rw [this]
+        have hdiv : 2147483648 / 2 ^ n = 2 ^ (31 - n) :=
+          Nat.div_eq_of_eq_mul_right (Nat.pow_pos (by decide)) hpow.symm
+        have e31 : 23 + (8 - n) = 31 - n := by omega
+        have hZp : 0 < 2 ^ (31 - n) := Nat.pow_pos (by decide)
+        have htop : (t + 1) * 2 ^ (31 - n) ≤ 2147483648 := by
+          rw [← hpow]; exact Nat.mul_le_mul_right _ h2
+        have hvtop : (v + 1) * 2 ^ (31 - n) ≤ 2147483648 := by
+          rw [← hpow]; exact Nat.mul_le_mul_right _ hv
+        rw [Nat.add_mul, Nat.one_mul] at h4 htop hvtop
+        have hrz : c.rng ≤ 2 ^ (31 - n) := by omega
+        have hval : c.val < 2147483648 := by omega
+        have hmod : c.val % 2 ^ (31 - n) < 2 ^ (31 - n) := Nat.mod_lt _ hZp
+        have hdt : c.val / 2 ^ (31 - n) = t := Nat.div_eq_of_lt_le h3 (by rw [Nat.add_mul, Nat.one_mul]; omega)
+        have hvm : c.val = t * 2 ^ (31 - n) + c.val % 2 ^ (31 - n) := by
+          have := Nat.div_add_mod c.val (2 ^ (31 - n))
+          rw [hdt, Nat.mul_comm] at this; exact this.symm
+        have e : encPatchInitialBits c v n =
+            { c with val := c.val % 2 ^ (31 - n) + v * 2 ^ (31 - n) } := by
+          unfold encPatchInitialBits
+          simp only [if_neg ho, if_neg hr, if_neg hx, hdiv, if_pos hrz, e31]
+          have h0 : c.val / 2147483648 = 0 := Nat.div_eq_of_lt hval
+          have hsh : v <<< (31 - n) < 4294967296 := by rw [Nat.shiftLeft_eq]; omega
+          rw [h0, Nat.zero_mul, Nat.add_zero, u32_of_lt hsh, or_shift _ _ _ hmod]
+        rw [e]
+        generalize hc' : ({ c with val := c.val % 2 ^ (31 - n) + v * 2 ^ (31 - n) } : Enc) = c'
+        have f_val : c'.val = c.val % 2 ^ (31 - n) + v * 2 ^ (31 - n) := by rw [← hc']
+        have eM : encM c' = encM c := by rw [← hc']; rfl
+        have eD : digitsVal c' = 0 := by rw [← hc']; exact hD0
+        have hZ' : cellSz c' n = 2 ^ (31 - n) := by unfold cellSz; rw [eM, hM0]; simp
+        have hL' : encLow c' = c'.val := by unfold encLow; rw [eD]; simp
+        have e2 : c'.rng = c.rng := by rw [← hc']
+        have e3 : c'.rem = c.rem := by rw [← hc']
+        generalize 2 ^ (31 - n) = Z at *
+        generalize htZ : t * Z = tZ at *
+        generalize hvZ : v * Z = vZ at *
+        refine ⟨by rw [← hc'], ⟨⟨⟨⟨by rw [← hc']; exact wf.offs_le, by rw [← hc']; exact wf.storage_le,
+          by rw [e3]; exact wf.rem_lo, by rw [e3]; exact wf.rem_hi⟩, by rw [e2]; exact rp, by rw [e2]; exact rh,
+          by rw [e2, f_val]; omega, fun _ => by rw [e2, f_val]; omega, by rw [← hc']; exact eb⟩,
+          by rw [e2]; exact rl⟩,
+          ⟨by rw [← hc']; exact raw.win_lt, by rw [← hc']; exact raw.nend_le⟩, by rw [← hc']; exact bytes⟩,
+          ⟨hn8, hv, by rw [hZ', hL', f_val, hvZ]; omega,
+            by rw [hZ', hL', f_val, e2, Nat.add_mul, Nat.one_mul, hvZ]; omega,
+            fun hh => by rw [eM, hM0] at hh; omega⟩,
+          eM, e2, by rw [← hc'], by rw [hL', f_val]; omega, by rw [← hc'], by rw [← hc']; rfl, by rw [← hc']; rfl⟩
+
 end Opus.RangeCoder
